@@ -61,7 +61,7 @@ def reqIdle (c : Conn) : R :=
   if c.inn.read ≥ c.inn.len then (c, .data) else
   let (c, u) := txCreate cfg c
   match u with
-  | none => (c, .error)
+  | none => ({ c with inn := { c.inn with tx := none } }, .error)    -- connp->in_tx = NULL
   | some uid =>
     -- htp_tx_state_request_start: return value ignored
     let (c, _) := txStateRequestStart uid c
@@ -438,18 +438,23 @@ def reqDriverLoop (isGap : Bool) : Nat → Conn → Conn × Nat
       else ({ c with inn := { c.inn with status := STREAM_ERROR } }, STREAM_ERROR)
 
 /-- htp_connp_req_data(connp, ts, data, len): `data = none` is a NULL pointer (gap when len > 0, close when 0) -/
-def reqData (data : Option Bytes) (len : Nat) (c : Conn) : Conn × Nat :=
+def reqDataCore (data : Option Bytes) (len : Nat) (c : Conn) : Conn × Nat :=
   if c.inn.status == STREAM_STOP then (c, STREAM_STOP) else
   if c.inn.status == STREAM_ERROR then (c, STREAM_ERROR) else
   if c.inn.tx.isNone && c.inState != .idle then
     ({ c with inn := { c.inn with status := STREAM_ERROR } }, STREAM_ERROR) else
   if len == 0 && c.inn.status != STREAM_CLOSED then (c, STREAM_CLOSED) else
   let c := { c with inn := { c.inn with cur := data.getD [], curNull := data.isNone, len := len, read := 0, consume := 0,
-                                        receiver := 0 },
+                                        receiver := 0, live := true },
                     inChunkCount := c.inChunkCount + 1, inDataCounter := c.inDataCounter + len }
   if c.inn.status == STREAM_TUNNEL then (c, STREAM_TUNNEL) else
   let c := if c.out.status == STREAM_DATA_OTHER then { c with out := { c.out with status := STREAM_DATA } } else c
   reqDriverLoop cfg (data.isNone && len > 0) (8 * len + 64) c
+
+/-- the call returns: the caller's chunk is no longer valid -/
+def reqData (data : Option Bytes) (len : Nat) (c : Conn) : Conn × Nat :=
+  let (c, rc) := reqDataCore cfg data len c
+  ({ c with inn := { c.inn with live := false } }, rc)
 
 end
 end Htp.Conn
